@@ -219,7 +219,11 @@ func (w *World) Step() {
 			break
 		}
 	case k < 10: // fuse
-		if b := w.call("plasma.Fuse", u, types.PlasmaContract, qsr, units(10+w.R.Int63n(30)),
+		ftok := qsr
+		if w.R.Intn(5) == 0 {
+			ftok = znn // the wrong token, in an amount that would do
+		}
+		if b := w.call("plasma.Fuse", u, types.PlasmaContract, ftok, units(10+w.R.Int63n(30)),
 			definition.ABIPlasma.PackMethodPanic(definition.FuseMethodName, w.user().Address)); b != nil {
 			w.Fusions = append(w.Fusions, lock{u, b.Hash})
 		}
